@@ -165,6 +165,15 @@ CHECKS.update({
         ref='3/C16'),
 })
 
+CHECKS.update({
+    'C15': dict(
+        technique='stream fuzzing with structure-aware generators (Hypothesis: mutations, compression-graph grammar, hostile-but-parsable names) against a running instance in the simulator; invariant + canary oracle',
+        text=SIM + 'streams of 1-25 (thorough 40) datagrams incl. 20 % oversized, from mDNS and legacy ports, IPv4/IPv6, on every socket of a victim that has registered services, '
+             'a browser and a lookup in progress; no exception may reach the loop, oversized datagrams leave no trace, and canary query/announcement traffic still works afterwards.',
+        note='reuses C02\'s generators; an atheris corpus is not wired into this check (the grammar reaches the states fuzzing did not)',
+        ref='3/C15'),
+})
+
 NOT_YET = {
 }
 
